@@ -76,9 +76,12 @@ def e1(cx):
                         return 'empty'
             elif k == 'assign':
                 if render(n['lhs']) in ('_0',) or (n['lhs'][0] == 'local' and (n['lhs'][1] == 0 or (isinstance(n['lhs'][1], tuple) and n['lhs'][1][1] == 0 and not n['ctx']))):
-                    if n['ctx']:
-                        return st
                     b = const_bool(n['rhs'])
+                    if n['ctx']:
+                        # the return slot of an inlined is_finished (e.g. the blanket handle impl written as a match)
+                        if b is True and st == 'empty':
+                            return 'empty_true'
+                        return st
                     if b is True and st == 'empty':
                         return 'empty_true'
                     if b is not None and st in ('none', 'empty'):
